@@ -339,3 +339,43 @@ func GoodStep(s []int, j int) int {
 	}
 	return s[j]
 }
+
+// ---- E2 through same-package helpers, return-value correlation, value-form || ----
+
+func lookupChecked(m map[string]int, k string, want int) (int, error) {
+	v, ok := m[k]
+	if !ok {
+		return 0, errors.New("missing")
+	}
+	if v != want {
+		return 0, errors.New("mismatch")
+	}
+	return v, nil
+}
+
+func effect(int) {}
+
+func GoodHelperGuard(m map[string]int, k string) error {
+	v, err := lookupChecked(m, k, 1)
+	if err != nil {
+		return err
+	}
+	effect(v)
+	return nil
+}
+
+func BadHelperGuard(m map[string]int, k string) error {
+	v, _ := lookupChecked(m, k, 1)
+	effect(v)
+	return nil
+}
+
+func GoodSwitchOr(a int, b bool) int {
+	switch {
+	case a == 0 || b:
+		effect(a)
+		return 1
+	default:
+		return 0
+	}
+}
